@@ -8,8 +8,10 @@
    patterns, boundary-structured operands). *)
 From Coq Require Import ZArith List.
 From Verif Require Import Lib.Params Lib.Words Lib.NumberTheory Model.FfLimbs
-  Proofs.FfWords Proofs.FfArith Proofs.FfOps Proofs.FfInverse Proofs.FfRoutinesEq.
-From Verif Require Gen.FfRoutines.
+  Proofs.FfWords Proofs.FfArith Proofs.FfOps Proofs.FfInverse Proofs.FfRoutinesEq
+  Model.AsmSem Proofs.AsmProofs.
+From Verif Require Gen.FfRoutines Gen.FfAsm.
+Import ListNotations.
 Local Open Scope Z_scope.
 
 (* every literal of every modelled routine is the expected limb of q / -q^-1 /
@@ -88,14 +90,184 @@ Proof.
         (conj gen_butterflyGeneric_eq gen_madd0_eq))))))))).
 Qed.
 
-Theorem C05_inverse_is_the_source : forall u s r v,
-  FfRoutines.Element_Inverse_tail u s r v =
-  match inv_body u v r s with
-  | inl z => inl z
-  | inr (u', v', r', s') => inr (u', s', r', v')
-  end.
-Proof. exact gen_inv_body_eq. Qed.
+(* Inverse: prologue, the two inner loops (condition + body) and the tail of the outer
+   loop are the regenerated fragments; only the fuel-bounded glue is hand-written *)
+Theorem C05_inverse_is_the_source :
+  (forall fuel x, inverse_fuel fuel x =
+     match FfRoutines.Element_Inverse_pre x with
+     | inl z => Some z
+     | inr (u, s, r, v) => inverse_loop fuel u v r s
+     end) /\
+  (forall fuel u s r v, inv_vloop (S fuel) v s =
+     if FfRoutines.Element_Inverse_loop1_cond u s r v
+     then (let '(_, s', _, v') := FfRoutines.Element_Inverse_loop1_body u s r v in inv_vloop fuel v' s')
+     else Some (v, s)) /\
+  (forall fuel u s r v, inv_uloop (S fuel) u r =
+     if FfRoutines.Element_Inverse_loop2_cond u s r v
+     then (let '(u', _, r', _) := FfRoutines.Element_Inverse_loop2_body u s r v in inv_uloop fuel u' r')
+     else Some (u, r)) /\
+  (forall u s r v, FfRoutines.Element_Inverse_tail u s r v =
+     match inv_body u v r s with
+     | inl z => inl z
+     | inr (u', v', r', s') => inr (u', s', r', v')
+     end).
+Proof. exact (conj gen_inverse_pre_eq (conj gen_inv_vloop_eq (conj gen_inv_uloop_eq gen_inv_body_eq))). Qed.
 
+Theorem C05_more_routines_are_the_source :
+  (forall x, FfRoutines.Element_Square x = square x) /\
+  (forall v, FfRoutines.Element_SetUint64 v = setUint64 v) /\
+  (forall z, FfRoutines.Element_ToMont z = toMont z) /\
+  (forall x, FfRoutines.MulBy3 x = mulBy3 x) /\
+  (forall x, FfRoutines.MulBy5 x = mulBy5 x) /\
+  (forall x, FfRoutines.MulBy13 x = mulBy13 x) /\
+  (forall a b c, FfRoutines.madd1 a b c = madd1 a b c) /\
+  (forall a b c d, FfRoutines.madd2 a b c d = madd2 a b c d) /\
+  (forall a b c d e, FfRoutines.madd3 a b c d e = madd3 a b c d e).
+Proof.
+  exact (conj gen_square_eq (conj gen_setUint64_eq (conj gen_toMont_eq (conj gen_mulBy3_eq (conj gen_mulBy5_eq
+        (conj gen_mulBy13_eq (conj gen_madd1_eq (conj gen_madd2_eq gen_madd3_eq)))))))).
+Qed.
+
+(* zero divisor: inv_mod 0 q = 0, so inverse / div / batch inverse map zero to zero *)
+Theorem C05_inv_mod_zero : inv_mod 0 q = 0.
+Proof. vm_compute. reflexivity. Qed.
+
+
+(* ------------------------------------------------------------------------------------
+   THE amd64 ASSEMBLY (ff/element_ops_amd64.s, element_mul_amd64.s, element_mul_adx_amd64.s).
+   tools/asmgen regenerates the instruction lists (macros expanded, DATA constants resolved)
+   into Gen/FfAsm.v at every run; Model/AsmSem.v gives the x86-64 subset its semantics
+   (registers, CF/OF/ZF, memory indexed by location so that aliasing between the destination
+   and the operands is real).  For all canonical operands, ALL locations of the pointer
+   arguments (every aliasing pattern), all initial registers/flags and BOTH values of the
+   run-time ADX switch, each routine terminates and stores exactly what the proved portable
+   model computes; nothing else in memory changes.  [asm_adx_*] are the amd64_adx build.
+   (Butterfly requires its two pointers to be distinct: with a == b the two outputs share
+   one object and assembly and portable code keep different halves.) *)
+Theorem C05_asm_add_correct : forall adx (lres lx ly : loc) (st : state) (x y : el),
+  canon x -> canon y ->
+  args st = [VP lres; VP lx; VP ly] -> mem st lx = x -> mem st ly = y ->
+  exists st', run adx FfAsm.asm_add st = Some st' /\
+    mem st' lres = addGeneric x y /\
+    (forall l, l <> lres -> mem st' l = mem st l) /\
+    canon (mem st' lres) /\ mval (mem st' lres) = (mval x + mval y) mod q.
+Proof. exact asm_add_correct. Qed.
+
+Theorem C05_asm_sub_correct : forall adx (lres lx ly : loc) (st : state) (x y : el),
+  canon x -> canon y ->
+  args st = [VP lres; VP lx; VP ly] -> mem st lx = x -> mem st ly = y ->
+  exists st', run adx FfAsm.asm_sub st = Some st' /\
+    mem st' lres = subGeneric x y /\
+    (forall l, l <> lres -> mem st' l = mem st l) /\
+    canon (mem st' lres) /\ mval (mem st' lres) = (mval x - mval y) mod q.
+Proof. exact asm_sub_correct. Qed.
+
+Theorem C05_asm_double_correct : forall adx (lres lx : loc) (st : state) (x : el),
+  canon x ->
+  args st = [VP lres; VP lx] -> mem st lx = x ->
+  exists st', run adx FfAsm.asm_double st = Some st' /\
+    mem st' lres = doubleGeneric x /\
+    (forall l, l <> lres -> mem st' l = mem st l) /\
+    canon (mem st' lres) /\ mval (mem st' lres) = (2 * mval x) mod q.
+Proof. exact asm_double_correct. Qed.
+
+Theorem C05_asm_neg_correct : forall adx (lres lx : loc) (st : state) (x : el),
+  canon x ->
+  args st = [VP lres; VP lx] -> mem st lx = x ->
+  exists st', run adx FfAsm.asm_neg st = Some st' /\
+    mem st' lres = negGeneric x /\
+    (forall l, l <> lres -> mem st' l = mem st l) /\
+    canon (mem st' lres) /\ mval (mem st' lres) = (- mval x) mod q.
+Proof. exact asm_neg_correct. Qed.
+
+Theorem C05_asm_reduce_correct : forall adx (lres : loc) (st : state) (x : el),
+  canon x ->
+  args st = [VP lres] -> mem st lres = x ->
+  exists st', run adx FfAsm.asm_reduce st = Some st' /\
+    mem st' lres = reduceGeneric x /\
+    (forall l, l <> lres -> mem st' l = mem st l) /\
+    canon (mem st' lres) /\ mval (mem st' lres) = mval x mod q.
+Proof. exact asm_reduce_correct. Qed.
+
+Theorem C05_asm_MulBy3_correct : forall adx (lx : loc) (st : state) (x : el),
+  canon x ->
+  args st = [VP lx] -> mem st lx = x ->
+  exists st', run adx FfAsm.asm_MulBy3 st = Some st' /\
+    mem st' lx = mulBy3 x /\
+    (forall l, l <> lx -> mem st' l = mem st l) /\
+    canon (mem st' lx) /\ mval (mem st' lx) = (3 * mval x) mod q.
+Proof. exact asm_MulBy3_correct. Qed.
+
+Theorem C05_asm_MulBy5_correct : forall adx (lx : loc) (st : state) (x : el),
+  canon x ->
+  args st = [VP lx] -> mem st lx = x ->
+  exists st', run adx FfAsm.asm_MulBy5 st = Some st' /\
+    mem st' lx = mulBy5 x /\
+    (forall l, l <> lx -> mem st' l = mem st l) /\
+    canon (mem st' lx) /\ mval (mem st' lx) = (5 * mval x) mod q.
+Proof. exact asm_MulBy5_correct. Qed.
+
+Theorem C05_asm_MulBy13_correct : forall adx (lx : loc) (st : state) (x : el),
+  canon x ->
+  args st = [VP lx] -> mem st lx = x ->
+  exists st', run adx FfAsm.asm_MulBy13 st = Some st' /\
+    mem st' lx = mulBy13 x /\
+    (forall l, l <> lx -> mem st' l = mem st l) /\
+    canon (mem st' lx) /\ mval (mem st' lx) = (13 * mval x) mod q.
+Proof. exact asm_MulBy13_correct. Qed.
+
+Theorem C05_asm_Butterfly_correct : forall adx (la lb : loc) (st : state) (a b : el),
+  canon a -> canon b -> la <> lb ->
+  args st = [VP la; VP lb] -> mem st la = a -> mem st lb = b ->
+  exists st', run adx FfAsm.asm_Butterfly st = Some st' /\
+    mem st' la = fst (butterflyGeneric a b) /\
+    mem st' lb = snd (butterflyGeneric a b) /\
+    (forall l, l <> la -> l <> lb -> mem st' l = mem st l) /\
+    canon (mem st' la) /\ canon (mem st' lb) /\
+    mval (mem st' la) = (mval a + mval b) mod q /\
+    mval (mem st' lb) = (mval a - mval b) mod q.
+Proof. exact asm_Butterfly_correct. Qed.
+
+Theorem C05_asm_fromMont_correct : forall adx (lres : loc) (st : state) (x : el),
+  canon x ->
+  args st = [VP lres] -> mem st lres = x ->
+  exists st', run adx FfAsm.asm_fromMont st = Some st' /\
+    mem st' lres = fromMontGeneric x /\
+    (forall l, l <> lres -> mem st' l = mem st l) /\
+    canon (mem st' lres) /\ val (mem st' lres) = mval x.
+Proof. exact asm_fromMont_correct. Qed.
+
+Theorem C05_asm_adx_fromMont_correct : forall adx (lres : loc) (st : state) (x : el),
+  canon x ->
+  args st = [VP lres] -> mem st lres = x ->
+  exists st', run adx FfAsm.asm_adx_fromMont st = Some st' /\
+    mem st' lres = fromMontGeneric x /\
+    (forall l, l <> lres -> mem st' l = mem st l) /\
+    canon (mem st' lres) /\ val (mem st' lres) = mval x.
+Proof. exact asm_adx_fromMont_correct. Qed.
+
+Theorem C05_asm_mul_correct : forall adx (lres lx ly : loc) (st : state) (x y : el),
+  canon x -> canon y ->
+  args st = [VP lres; VP lx; VP ly] -> mem st lx = x -> mem st ly = y ->
+  exists st', run adx FfAsm.asm_mul st = Some st' /\
+    mem st' lres = mulGeneric x y /\
+    (forall l, l <> lres -> mem st' l = mem st l) /\
+    canon (mem st' lres) /\ mval (mem st' lres) = (mval x * mval y) mod q.
+Proof. exact asm_mul_correct. Qed.
+
+Theorem C05_asm_adx_mul_correct : forall adx (lres lx ly : loc) (st : state) (x y : el),
+  canon x -> canon y ->
+  args st = [VP lres; VP lx; VP ly] -> mem st lx = x -> mem st ly = y ->
+  exists st', run adx FfAsm.asm_adx_mul st = Some st' /\
+    mem st' lres = mulGeneric x y /\
+    (forall l, l <> lres -> mem st' l = mem st l) /\
+    canon (mem st' lres) /\ mval (mem st' lres) = (mval x * mval y) mod q.
+Proof. exact asm_adx_mul_correct. Qed.
+
+Print Assumptions C05_asm_mul_correct.
+Print Assumptions C05_asm_adx_mul_correct.
+Print Assumptions C05_asm_add_correct.
+Print Assumptions C05_asm_Butterfly_correct.
 Print Assumptions C05_model_is_the_source.
 Print Assumptions C05_mul.
 Print Assumptions C05_add.
